@@ -150,11 +150,13 @@ class Ctx:
         self.obs = None
         self.path_keys = set()
         self._nontrivial = False
+        self.pending = None
         self.extra = {}
 
     # -- per path
     def begin(self):
         self.witness, self.obs, self._nontrivial = None, None, False
+        self.pending = None
 
     def reach(self, key):
         self.c["reach:" + key] += 1
@@ -237,6 +239,135 @@ class Ctx:
             eng.solver.pop()
             eng.model = None
 
+    # -- concrete fallback: boundary-biased models of the current path condition, judged on the pristine code
+    def _leaves(self, w, cap=96):
+        from .ints import SInt
+        from .seq import SSeq
+        leaves, seen = [], set()
+
+        def walk(x):
+            if len(leaves) >= cap:
+                return
+            if isinstance(x, SInt):
+                try:
+                    t = x.t
+                except Exception:
+                    return
+                if z3.is_expr(t) and not (z3.is_bv_value(t) or z3.is_int_value(t)):
+                    k = t.get_id()
+                    if k not in seen:
+                        seen.add(k); leaves.append(t)
+            elif isinstance(x, SSeq):
+                for e in x._d:
+                    walk(e)
+            elif isinstance(x, dict):
+                for v in x.values():
+                    walk(v)
+            elif isinstance(x, (list, tuple)):
+                for v in x:
+                    walk(v)
+        walk(w)
+        return leaves
+
+    def _pattern_models(self, w, patterns=("max", "hi", "lo", "min", "rand", "rand")):
+        """models of the current path condition that push the witness' free values towards boundary patterns (all ones, sign
+        boundary, zero, random); each is a genuine model of the path condition. Used only to look for a concrete, replayable
+        violation after the symbolic encoding gave up or its first witness did not reproduce - never to claim that a property holds."""
+        eng = core.ENG
+        if callable(w):
+            return
+        leaves = self._leaves(w)
+        if not leaves:
+            return
+        s = eng.solver
+        t_end = time.time() + 40                      # the whole search is bounded: it is a courtesy, not part of the verdict
+        for pat in patterns:
+            if time.time() > t_end:
+                return
+            s.push()
+            s.set("timeout", 1500)
+            try:
+                order = list(leaves)
+                if pat == "rand":
+                    self.rng.shuffle(order)
+                for t in order:
+                    if time.time() > t_end:
+                        break
+                    if z3.is_bv(t):
+                        n = t.size()
+                        val = {"max": (1 << n) - 1, "hi": 1 << (n - 1), "lo": (1 << (n - 1)) - 1, "min": 0}.get(pat)
+                        if val is None:
+                            val = self.rng.getrandbits(n)
+                        c = t == z3.BitVecVal(val, n)
+                    elif z3.is_int(t):
+                        val = {"max": 255, "hi": 128, "lo": 127, "min": 0}.get(pat)
+                        if val is None:
+                            val = self.rng.getrandbits(8)
+                        c = t == val
+                    else:
+                        continue
+                    try:
+                        if s.check(c) == z3.sat:
+                            s.add(c)
+                    except Exception:
+                        break
+                if s.check() == z3.sat:
+                    yield s.model()
+            finally:
+                s.pop()
+                s.set("timeout", getattr(eng, "timeout_ms", 20000))
+                eng.model = None
+
+    def _judge_models(self, w, what, models):
+        """-> True when one of the models gives a witness that the concrete judge flags on the pristine code"""
+        for m in models:
+            try:
+                cw = conc(m, w)
+            except Exception:
+                continue
+            key = hashlib.sha1(json.dumps(["fb", cw], sort_keys=True, default=str).encode()).hexdigest()
+            if key in self.path_keys:
+                continue
+            self.path_keys.add(key)
+            r = self.pristine.call("judge", self.prop, cw)
+            v = r.get("verdict")
+            if v:
+                k = (self.prop, v["signature"]) in self.known
+                if sum(1 for x in self.confirmed if x["signature"] == v["signature"]) < self.MAX_CAND:
+                    self.confirmed.append({"signature": v["signature"], "detail": v.get("detail", ""), "w": cw, "what": what, "known": k})
+                if not k and self.stop_flag is not None:
+                    self.stop_flag.value = 1
+                return True
+        return False
+
+    def fallback(self, eng, reason):
+        """the path could not be completed symbolically (engine limit, or an exception the harness did not expect): look for a
+        concrete violation among boundary-biased models of the path condition reached so far. Finding none proves nothing - the
+        path stays abandoned / the exception stays a harness error."""
+        w = self.pending if self.pending is not None else self.witness
+        if w is None or callable(w) or self.c["fallbacks"] >= 6:
+            return False
+        self.c["fallbacks"] += 1
+        try:
+            eng.solver.set("timeout", 5000)
+            if eng.solver.check() != z3.sat:
+                return False
+            base = [eng.solver.model()]
+        except Exception:
+            return False
+        finally:
+            eng.solver.set("timeout", getattr(eng, "timeout_ms", 20000))
+        import itertools
+        try:
+            return self._judge_models(w, f"concrete fallback after: {reason[:120]}", itertools.chain(base, self._pattern_models(w)))
+        except (EngineLimit, PathAbort):
+            return False
+
+    def intend(self, w):
+        """witness of what is about to be executed (used by the concrete fallback when the run itself fails)"""
+        self.pending = w
+        return w
+
     def check_iff(self, got, spec, what, witness=None):
         """got <=> spec, decided by forking on `got` (the linear store then settles XOR-system equivalences)."""
         if not isinstance(got, SBool):
@@ -279,6 +410,13 @@ class Ctx:
             if not k and self.stop_flag is not None:
                 self.stop_flag.value = 1
         else:
+            if not relaxed and not callable(witness if witness is not None else self.witness) and self.c["fallbacks"] < 6:
+                self.c["fallbacks"] += 1
+                try:
+                    if self._judge_models(w, what + " [boundary-biased model]", self._pattern_models(w)):
+                        return
+                except (EngineLimit, PathAbort):
+                    pass
             self.unconfirmed.append({"what": what, "w": cw, "relaxed": relaxed, "error": r.get("error"), "tb": r.get("tb")})
             if not relaxed and self.stop_flag is not None:
                 self.stop_flag.value = 2
@@ -304,9 +442,19 @@ class Ctx:
                 if "obs" in r and r["obs"] == json.loads(json.dumps(exp)):
                     self.replays_ok += 1
                 else:
-                    if len(self.mismatches) < 5:
-                        self.mismatches.append({"w": cw, "expected": exp, "pristine": r})
-                    self.c["replay_mismatch"] += 1
+                    # the real code behaves differently from the symbolic run on this input; if the concrete oracle finds the
+                    # property violated on it, that is the finding (confirmed on the real code) - otherwise a harness error
+                    rj = self.pristine.call("judge", self.prop, cw)
+                    v = rj.get("verdict")
+                    if v:
+                        k = (self.prop, v["signature"]) in self.known
+                        self.confirmed.append({"signature": v["signature"], "detail": v.get("detail", ""), "w": cw, "what": "differential replay", "known": k})
+                        if not k and self.stop_flag is not None:
+                            self.stop_flag.value = 1
+                    else:
+                        if len(self.mismatches) < 5:
+                            self.mismatches.append({"w": cw, "expected": exp, "pristine": r})
+                        self.c["replay_mismatch"] += 1
 
     def export(self):
         return dict(c=dict(self.c), samples=self.samples, confirmed=self.confirmed, unconfirmed=self.unconfirmed,
@@ -364,6 +512,7 @@ def _explore(scen, prop, seed, known, stop_flag, roots, frontier_depth=None, pat
     for hook in _JOB.get("engine_hooks", []):
         hook(eng)
     eng.on_path_end = ctx.end_path
+    eng.on_path_fail = ctx.fallback
     deadline = _JOB.get("deadline")
 
     def should_stop():
